@@ -518,22 +518,49 @@ func culprit(c *Case, stage string) string {
 	return strings.Join(bad, " | ")
 }
 
+// normErr keeps the constant part of an error message (no offsets / values).
+func normErr(m string) string {
+	for i, r := range m {
+		if r == '(' || (r >= '0' && r <= '9' && i > 5) {
+			return strings.TrimSpace(m[:i])
+		}
+	}
+	return m
+}
+
+func hasExplicitPrivate(t Type) bool {
+	if t.P.Explicit && t.P.Class == "priv" {
+		return true
+	}
+	for _, s := range t.Sub {
+		if hasExplicitPrivate(s) {
+			return true
+		}
+	}
+	return false
+}
+
 func check(c *Case) (map[string]any, string) {
-	stage, what := compare(c, runCase(c.T, c.V))
+	r := runCase(c.T, c.V)
+	stage, what := compare(c, r)
 	if stage == "" {
 		return nil, ""
 	}
-	cu := "n/a"
+	cu := ""
 	if stage != "marshal-bytes" {
 		cu = culprit(c, stage)
-	} else {
-		var names []string
-		for _, f := range c.T.Sub {
-			names = append(names, fieldName(f))
-		}
-		cu = strings.Join(names, " | ")
 	}
-	return map[string]any{"stage": stage, "culprit": cu}, what
+	errm := ""
+	switch stage {
+	case "marshal-error":
+		errm = normErr(r.MarshalErr)
+	case "unmarshal-error":
+		errm = normErr(r.UnmarshalErr)
+	case "remarshal-error":
+		errm = normErr(r.ReErr)
+	}
+	return map[string]any{"stage": stage, "error": errm, "explicit_private": hasExplicitPrivate(c.T)},
+		what + " [fields failing alone: " + cu + "]"
 }
 
 func main() {
@@ -621,7 +648,8 @@ func record(w *obs.Writer, t Type, v json.RawMessage) {
 		dec = []any{}
 	}
 	w.Write(map[string]any{"t": t, "v": v, "panic": r.Panic != "", "merr": r.MarshalErr != "", "enc": intsOf(r.Enc),
-		"uerr": r.UnmarshalErr != "", "rest": r.Rest, "dec": dec, "rerr": r.ReErr != "", "re": intsOf(r.Re)})
+		"uerr": r.UnmarshalErr != "", "rest": r.Rest, "dec": dec, "rerr": r.ReErr != "", "re": intsOf(r.Re),
+		"errmsg": normErr(r.MarshalErr + r.UnmarshalErr + r.ReErr), "explicit_private": hasExplicitPrivate(t)})
 }
 
 // ---------------------------------------------------------------- random deeper types
